@@ -26,6 +26,12 @@ type plan struct {
 	procs    int
 	logRuns  int
 	logLines int
+	// language-version variant (generated file compiled as go1.21, goroutine starts are scheduling points)
+	langCfgs    []obs.Cfg
+	langStress  float64
+	startPoints bool
+	tag         string
+	evSuffix    string
 }
 
 type mcRun struct {
@@ -93,8 +99,9 @@ type finding struct {
 }
 
 type findings struct {
-	mu sync.Mutex
-	m  map[string]*finding
+	mark string // appended to every reason (e.g. " lang=go1.21")
+	mu   sync.Mutex
+	m    map[string]*finding
 }
 
 func (fs *findings) add(cfg obs.Cfg, why, detail string, replay map[string]interface{}) {
@@ -103,6 +110,7 @@ func (fs *findings) add(cfg obs.Cfg, why, detail string, replay map[string]inter
 	if fs.m == nil {
 		fs.m = map[string]*finding{}
 	}
+	why += fs.mark
 	key := cfg.Comb + "|" + why
 	f := fs.m[key]
 	if f == nil {
@@ -211,8 +219,8 @@ func explore(c *core.Ctx, b *Built, p *plan) ([]VsResult, []string, error) {
 		wg.Add(1)
 		go func(i int) {
 			defer wg.Done()
-			job := VsJob{Mode: "dfs", Cfgs: parts[i], POR: true, MaxSteps: 600, LogRuns: p.logRuns, LogLines: p.logLines, Tag: fmt.Sprintf("d%d.", i)}
-			outs[i].o, outs[i].err = RunVs(c, b, job, fmt.Sprintf("dfs%d", i), 40*time.Minute)
+			job := VsJob{Mode: "dfs", Cfgs: parts[i], POR: true, MaxSteps: 600, LogRuns: p.logRuns, LogLines: p.logLines, Tag: fmt.Sprintf("%sd%d.", p.tag, i), StartPoints: p.startPoints}
+			outs[i].o, outs[i].err = RunVs(c, b, job, fmt.Sprintf("%sdfs%d", p.tag, i), 40*time.Minute)
 		}(i)
 	}
 	wg.Wait()
